@@ -360,6 +360,59 @@ def writeFmt : List FmtItem → List WResp → WOut
     | .ok _ => o.after (writeFmt items o.rest)
     | _ => o
 
+/-! ## unix/print.rs: `try_print`, `__UnixWriter` (`fmt::Write`), the `print!` family
+
+`try_print(fd, msg)` is *not* `write_all`: it always issues at least one `write` (also for an empty `msg`),
+returns `Ok(())` as soon as the kernel answers `0` (the rest of the piece is dropped), and maps every error —
+EINTR included — to `fmt::Error` (no retry).  A kernel answer larger than what was offered (cannot happen) ends the
+loop through `flushed >= len`; there is no slice index that could panic.  The responses are those of the `write`
+system call (`uerr` cannot occur; it is treated like any error to keep the function total). -/
+
+def tryPrint (data : List Nat) : List WResp → WOut
+  | [] => ⟨.ok (), data, [], [data.length], 0⟩
+  | r :: rest =>
+    match r with
+    | .accept k =>
+      if k == 0 then ⟨.ok (), [], rest, [data.length], 1⟩
+      else if data.length ≤ k then ⟨.ok (), data, rest, [data.length], 1⟩
+      else (tryPrint (data.drop k) rest).push (data.take k) data.length
+    | _ => ⟨.err .formatter, [], rest, [data.length], 1⟩
+
+/-- `fmt::write(&mut __UnixWriter, args)`: one `write_str` = one `try_print` per piece, stops at the first error -/
+def printFmt : List FmtItem → List WResp → WOut
+  | [], script => ⟨.ok (), [], script, [], 0⟩
+  | .fail :: _, script => ⟨.err .formatter, [], script, [], 0⟩
+  | .str bs :: items, script =>
+    let o := tryPrint bs script
+    match o.res with
+    | .ok _ => o.after (printFmt items o.rest)
+    | _ => o
+
+/-- the `\n` of `println!`/`eprintln!` (`__write_newline`) -/
+abbrev NL : List Nat := [10]
+
+/-- one expansion of `print!`/`eprint!` (`ln = false`) or `println!`/`eprintln!` (`ln = true`):
+`let _ = write_fmt(..); let _ = __write_newline();` — the newline is attempted whatever the first result was.
+`res` is the result of the last statement (the macro discards both). -/
+def printMacro (ln : Bool) (items : List FmtItem) (script : List WResp) : WOut :=
+  let o := printFmt items script
+  if ln then o.after (tryPrint NL o.rest) else o
+
+/-- several expansions one after the other on the same descriptor (`dbg!(a, b)` = two `eprintln!`) -/
+def printSeq : List (Bool × List FmtItem) → List WResp → WOut
+  | [], script => ⟨.ok (), [], script, [], 0⟩
+  | (ln, items) :: more, script =>
+    let o := printMacro ln items script
+    o.after (printSeq more o.rest)
+
+/-- deterministic printable-ASCII content of length `len` (test-data generator shared with the harness) -/
+def genBytes (len seed : Nat) : List Nat :=
+  (List.range len).map fun i => 33 + (seed + i + i / 94) % 94
+
+/-- the compile-time literal segments of the harness' templates: `"0123456789abcdef"` repeated, cut at `n` -/
+def cycBytes (n : Nat) : List Nat :=
+  (List.range n).map fun i => let d := i % 16; if d < 10 then 48 + d else 87 + d
+
 /-! ## UTF-8 validity as `core::str::from_utf8` decides it (used by the driver; the theorems take `valid` abstractly) -/
 
 def isCont (b : Nat) : Bool := 0x80 ≤ b && b ≤ 0xBF
